@@ -18,7 +18,7 @@ def run(res):
         res.notes.append("checks/C05_store.py not present: store clause covered at broker level only")
     if res.violations:
         return
-    brokercheck.run(res, "C05", "Props/C05.v", monitors.monitor_c05, nontrivial=nontrivial, focus="confirm")
+    brokercheck.run(res, "C05", ["Props/C05.v", "Props/C05_history.v"], monitors.monitor_c05, nontrivial=nontrivial, focus="confirm")
 
 
 def replay(path):
